@@ -338,7 +338,7 @@ func ruleNODESOURCES(c *Ctx, r *Report) {
 				n++
 				key := fnName(f) + "|" + fnName(callee)
 				if why, ok := allowed[f]; ok {
-					if why == "helper of a reducer" {
+					if why == "helper of a reducer" || why == "reducer" {
 						// such a helper may assemble operator nodes from the operands it is given; a leaf built there
 						// (from a number it parsed, a text it rewrote) is content no token carried
 						leaf := false
@@ -351,7 +351,7 @@ func ruleNODESOURCES(c *Ctx, r *Report) {
 							leaf = true // a constructor whose node kind is not fixed (classifies by content)
 						}
 						if leaf {
-							r.bad(rule, key, c.instrPos(in), fnName(f)+", a helper of the reducers, builds a leaf node: leaves come from the token→literal function only — a leaf made from a value the helper derived (a quoted text re-read as a number, say) is content that no token of the input carried in that form")
+							r.bad(rule, key, c.instrPos(in), fnName(f)+", "+map[string]string{"reducer": "a reducer", "helper of a reducer": "a helper of the reducers"}[why]+", builds a leaf node: leaves come from the token→literal function only — a leaf made from a value the helper derived (a quoted text re-read as a number, say) is content that no token of the input carried in that form")
 							continue
 						}
 					}
